@@ -35,6 +35,7 @@ var c04Configs = []limitCfg{
 	{"only-level-1", [4]int{0, 50, -1, -1}},
 	{"only-level-2", [4]int{0, -1, 20, -1}},
 	{"only-level-3", [4]int{0, -1, -1, 5}},
+	{"4096-4096-4096", [4]int{0, 4096, 4096, 4096}},
 }
 
 // countingReader hands out everything available and counts Read calls.
@@ -88,11 +89,23 @@ func putU32(b []byte, off int, be bool, v uint32) {
 }
 
 // c04Judge runs the decoders on one input under one limit configuration.
+func c04JudgeQuiet(c *fw.Ctx, m wkbMode, cfg limitCfg, in []byte, class string, desc map[string]any) {
+	c04JudgeOpt(c, m, cfg, in, class, desc, true)
+}
+
 func c04Judge(c *fw.Ctx, m wkbMode, cfg limitCfg, in []byte, class string, desc map[string]any) {
+	c04JudgeOpt(c, m, cfg, in, class, desc, false)
+}
+
+func c04JudgeOpt(c *fw.Ctx, m wkbMode, cfg limitCfg, in []byte, class string, desc map[string]any, quiet bool) {
 	desc["mode"] = m.name
 	desc["limits"] = cfg.name
 	desc["class"] = class
-	desc["bytes"] = hex.EncodeToString(in)
+	if quiet && len(in) > 300 {
+		desc["bytes_prefix"] = hex.EncodeToString(in[:300])
+	} else {
+		desc["bytes"] = hex.EncodeToString(in)
+	}
 	c.SetRawInput(desc, append([]byte{byte(modeIndex(m)), byte(cfgIndex(cfg))}, in...))
 	// what does the reference reader make of it?
 	ro := m.o
@@ -354,6 +367,97 @@ func c04Truncations(c *fw.Ctx, idx int) {
 	c.Count("encodings_truncated_at_every_prefix")
 }
 
+// large counts that stay within generous limits: allocation must still be linear in
+// the input (a product of two in-limit counts must not be reserved up front)
+func c04LargeWithinLimits(c *fw.Ctx, idx int) {
+	r := c.R
+	m := wkbModes[r.Intn(len(wkbModes))]
+	cfg := c04Configs[len(c04Configs)-1]
+	if r.Chance(1, 4) {
+		cfg = c04Configs[2] // 1000-100-10
+	}
+	layout := gen.StdLayouts[r.Intn(4)]
+	stride := layout.Stride()
+	pts := func(n int) [][]float64 {
+		out := make([][]float64, n)
+		for i := range out {
+			out[i] = make([]float64, stride)
+			for j := range out[i] {
+				out[i][j] = float64(r.Range(-100, 100))
+			}
+		}
+		return out
+	}
+	L1, L2, L3 := cfg.lim[1], cfg.lim[2], cfg.lim[3]
+	var g *model.G
+	kindName := ""
+	switch r.Intn(5) {
+	case 0: // polygon: big first ring, many small rings
+		g = &model.G{Kind: model.Polygon, Layout: layout}
+		g.C2 = append(g.C2, pts(r.Range(L1/4, L1)))
+		for i := 0; i < r.Range(1, 40); i++ {
+			g.C2 = append(g.C2, pts(r.Range(0, 4)))
+		}
+		kindName = "polygon-big-first-ring"
+	case 1: // polygon with very many small rings
+		g = &model.G{Kind: model.Polygon, Layout: layout}
+		for i := 0; i < r.Range(L2/2, L2); i++ {
+			g.C2 = append(g.C2, pts(r.Range(0, 3)))
+		}
+		kindName = "polygon-many-rings"
+	case 2: // multilinestring: big first line, many lines
+		g = &model.G{Kind: model.MultiLineString, Layout: layout}
+		g.C2 = append(g.C2, pts(r.Range(L1/4, L1)))
+		for i := 0; i < r.Range(1, min(L2, 60)); i++ {
+			g.C2 = append(g.C2, pts(r.Range(0, 3)))
+		}
+		kindName = "multilinestring-big-first-line"
+	case 3: // multipolygon: big first polygon, several polygons
+		g = &model.G{Kind: model.MultiPolygon, Layout: layout}
+		g.C3 = append(g.C3, [][][]float64{pts(r.Range(L1/4, L1)), pts(3)})
+		for i := 0; i < r.Range(1, min(L3, 30)); i++ {
+			g.C3 = append(g.C3, [][][]float64{pts(r.Range(0, 4))})
+		}
+		kindName = "multipolygon-big-first-polygon"
+	default: // multipoint with many points
+		g = &model.G{Kind: model.MultiPoint, Layout: layout}
+		g.C1 = pts(r.Range(L1/2, L1))
+		kindName = "multipoint-many-points"
+	}
+	base, fields, err := ref.WriteWKB(g, m.o)
+	if err != nil {
+		return
+	}
+	in := append([]byte{}, base...)
+	desc := map[string]any{"shape": kindName}
+	class := "large-within-limits"
+	// raise one count to its limit (the claimed elements need not exist) and/or truncate
+	var counts []ref.Field
+	for _, f := range fields {
+		if f.Kind == "count" && f.Depth == 0 && f.Level > 0 {
+			counts = append(counts, f)
+		}
+	}
+	if len(counts) > 0 && r.Chance(2, 3) {
+		f := counts[0]
+		if r.Chance(1, 3) {
+			f = counts[r.Intn(len(counts))]
+		}
+		v := uint32(cfg.lim[f.Level])
+		if r.Bool() {
+			v = uint32(r.Range(cfg.lim[f.Level]/2, cfg.lim[f.Level]))
+		}
+		putU32(in, f.Off, m.o.BigEndian, v)
+		desc["forged_field"] = fmt.Sprintf("count of %s at offset %d (level %d) := %d", f.Type, f.Off, f.Level, v)
+	}
+	if r.Chance(1, 3) {
+		in = in[:r.Range(len(in)/2, len(in))]
+	}
+	desc["input_bytes"] = len(in)
+	c.Count("shape_" + kindName)
+	c04JudgeQuiet(c, m, cfg, in, class, desc)
+}
+
 // hex strings and SQL wrappers over arbitrary input
 func c04Wrappers(c *fw.Ctx, idx int) {
 	r := c.R
@@ -466,15 +570,16 @@ func init() {
 	fw.Register(&fw.Monitor{
 		ID:     "C04",
 		Title:  "binary decoders are total, allocation-bounded and canonical on arbitrary bytes",
-		Rule:   "valid encodings from the reference writer (small geometries, collections to depth 3, all modes/orders) mutated by truncation (sampled, and every prefix), 1-2 bit flips biased to header fields, splices of two encodings, forgery of exactly one count field located through the reference writer's field map to {limit, limit+1, 2^31-1, 2^31, 2^32-1, random}, random bytes behind plausible headers; 7 settings of wkbcommon.MaxGeometryElements. Monitors: panic/process death (journal), WF of accepted geometries, decode->encode->decode equality, agreement with the reference reader on accepted bytes, ErrGeometryTooLarge{Level,N,Limit} exactly when the reference reader (same limits) meets an over-limit count first, allocation monitor (TotalAlloc delta <= 64*len+128*sum(limits)+65536, re-measured on excess), Read-call bound 4*len+16. Inputs whose count at a level WITHOUT a limit is not backed by input are not driven (the property's carve-out). distinct_nontrivial = distinct (format, config, field type, level, depth) forgeries + accepted shape signatures",
+		Rule:   "valid encodings from the reference writer (small geometries, collections to depth 3, all modes/orders) mutated by truncation (sampled, and every prefix), 1-2 bit flips biased to header fields, splices of two encodings, forgery of exactly one count field located through the reference writer's field map to {limit, limit+1, 2^31-1, 2^31, 2^32-1, random}, random bytes behind plausible headers; large geometries whose counts stay within generous limits (big first ring/line/polygon followed by many parts, one count raised to its limit, optionally truncated) so that an allocation proportional to a PRODUCT of in-limit counts shows; 8 settings of wkbcommon.MaxGeometryElements. Monitors: panic/process death (journal), WF of accepted geometries, decode->encode->decode equality, agreement with the reference reader on accepted bytes, ErrGeometryTooLarge{Level,N,Limit} exactly when the reference reader (same limits) meets an over-limit count first, allocation monitor (TotalAlloc delta <= 64*len+128*sum(limits)+65536, re-measured on excess), Read-call bound 4*len+16. Inputs whose count at a level WITHOUT a limit is not backed by input are not driven (the property's carve-out). distinct_nontrivial = distinct (format, config, field type, level, depth) forgeries + accepted shape signatures",
 		Assume: []string{"runtime.ReadMemStats TotalAlloc delta in a single-goroutine child is exactly what the decode allocated", "reference reader in harness/ref decides which count field is met first", "children run under ulimit -v 4000000 so an unrejected forged count kills the child, which the journal attributes to the input"},
 		Classes: []fw.Class{
 			{Name: "mutations", Quick: 200000, Thorough: 12000000, Run: c04Mutations, RawReplay: c04RawReplay},
 			{Name: "every-prefix", Quick: 3000, Thorough: 100000, Run: c04Truncations},
 			{Name: "hex-sql", Quick: 20000, Thorough: 1000000, Run: c04Wrappers},
+			{Name: "large-within-limits", Quick: 3000, Thorough: 100000, Run: c04LargeWithinLimits, RawReplay: c04RawReplay},
 		},
 		Extra: fuzzExtra("C04", 3000000),
 		Require: []string{"class_valid", "class_truncated", "class_bitflip", "class_splice", "class_forged-count", "class_random-behind-header", "class_every-prefix", "expected_too_large", "decoder_accepted", "decoder_error",
-			"config_disabled", "config_0-0-0", "config_only-level-2", "hex_decodes", "sql_scans", "encodings_truncated_at_every_prefix"},
+			"config_disabled", "config_0-0-0", "config_only-level-2", "hex_decodes", "sql_scans", "encodings_truncated_at_every_prefix", "class_large-within-limits", "shape_polygon-big-first-ring"},
 	})
 }
